@@ -276,11 +276,29 @@ def build(spec, task_hashes=None, comp_hashes=None, junk=0):
 
 
 def _wire(h, spec):
-    """All relations of the model (dependencies, component tree, task<->component/team/workplace links, conveyor links)."""
+    """All relations of the model (dependencies, component tree, task<->component/team/workplace links, conveyor links).
+
+    spec["extend"]: the relations are entered through the extend_* helpers (whole lists at once) where the order of
+    the resulting lists is the same, else one by one through append_*."""
     tspecs = spec.get("tasks", [])
     cspecs = spec.get("comps", [])
+    ext = bool(spec.get("extend"))
+    by_succ = {}
     for pred, succ, kind in spec.get("deps", []):
-        h.tasks[succ].append_input_task(h.tasks[pred], BaseTaskDependency(kind))
+        by_succ.setdefault(succ, []).append((pred, kind))
+    if ext:
+        for succ in sorted(by_succ):
+            kinds = set(k for _, k in by_succ[succ])
+            if len(kinds) == 1:
+                h.tasks[succ].extend_input_task_list([h.tasks[p] for p, _ in by_succ[succ]], BaseTaskDependency(kinds.pop()))
+            else:
+                for pred, kind in by_succ[succ]:
+                    h.tasks[succ].append_input_task(h.tasks[pred], BaseTaskDependency(kind))
+        # (the order of every task's input list is as in the append style; output lists may differ in order when
+        # successors are interleaved, so the extend style is only used when that cannot happen)
+    else:
+        for pred, succ, kind in spec.get("deps", []):
+            h.tasks[succ].append_input_task(h.tasks[pred], BaseTaskDependency(kind))
     for i, c in enumerate(cspecs):
         if c.get("parent") is not None:
             h.comps[c["parent"]].append_child_component(h.comps[i])
@@ -290,33 +308,39 @@ def _wire(h, spec):
         h.teams[i].parent_team = h.teams[tm["parent"]] if tm.get("parent") is not None else None
     for i, wp in enumerate(spec.get("wps", [])):
         h.wps[i].parent_workplace = h.wps[wp["parent"]] if wp.get("parent") is not None else None
-    for i, t in enumerate(tspecs):
-        if t.get("comp") is not None:
-            h.comps[t["comp"]].append_targeted_task(h.tasks[i])
+    if ext:
+        for ci in range(len(cspecs)):
+            ts = [h.tasks[i] for i, t in enumerate(tspecs) if t.get("comp") == ci]
+            if ts:
+                h.comps[ci].extend_targeted_task_list(ts)
+    else:
+        for i, t in enumerate(tspecs):
+            if t.get("comp") is not None:
+                h.comps[t["comp"]].append_targeted_task(h.tasks[i])
     for i, c in enumerate(cspecs):
         # one-sided links (what BaseComponent(targeted_task_list=[...]) gives): the component lists the task,
         # the task's target_component does not point back (it may point to another component)
         for k in c.get("extra_tasks", ()):
             h.comps[i].targeted_task_list.append(h.tasks[k])
-    for i, tm in enumerate(spec.get("teams", [])):
-        team = h.teams[i]
-        for k in tm.get("targets", []):
-            if k in tm.get("notask", ()):
-                # one-sided link (what BaseTeam(targeted_task_list=[...]) gives): the team lists the
-                # task, the task does not list the team; the simulator only reads the team side
-                team.targeted_task_list.append(h.tasks[k])
-            else:
-                team.append_targeted_task(h.tasks[k])
+    for groups, objs in ((spec.get("teams", []), h.teams), (spec.get("wps", []), h.wps)):
+        for i, g in enumerate(groups):
+            obj = objs[i]
+            if ext and not g.get("notask"):
+                obj.extend_targeted_task_list([h.tasks[k] for k in g.get("targets", [])])
+                continue
+            for k in g.get("targets", []):
+                if k in g.get("notask", ()):
+                    # one-sided link (what BaseTeam(targeted_task_list=[...]) gives): the team lists the
+                    # task, the task does not list the team; the simulator only reads the team side
+                    obj.targeted_task_list.append(h.tasks[k])
+                else:
+                    obj.append_targeted_task(h.tasks[k])
     for i, wp in enumerate(spec.get("wps", [])):
-        workplace = h.wps[i]
-        for k in wp.get("targets", []):
-            if k in wp.get("notask", ()):
-                workplace.targeted_task_list.append(h.tasks[k])
-            else:
-                workplace.append_targeted_task(h.tasks[k])
-    for i, wp in enumerate(spec.get("wps", [])):
-        for k in wp.get("inputs", []):
-            h.wps[i].append_input_workplace(h.wps[k])
+        if ext and wp.get("inputs"):
+            h.wps[i].extend_input_workplace_list([h.wps[k] for k in wp["inputs"]])
+        else:
+            for k in wp.get("inputs", []):
+                h.wps[i].append_input_workplace(h.wps[k])
 
 
 # --------------------------------------------------------------------------------------------
